@@ -595,6 +595,58 @@ def r13_owning_members(chk, prog, rule='R13'):
     chk.require(n >= 3, 'smart-pointer members in the argument handling: %d' % n)
 
 
+def r14_argument_file_nesting(chk, prog, rule='R14'):
+    """evaluation terminates for every content of the argument files: the words of a file are evaluated by the handler
+    itself, and one of its arguments (addArgumentFile()) reads another argument file - a file that names itself (or
+    two files that name each other) would recurse until the stack overflows.  Handler::readArgumentFile() therefore
+    carries a bound: before it evaluates the first line it updates a member of the handler (nesting counter / set of
+    files in progress), tests it, and leaves with an exception when the test fails."""
+    f = prog.one('celma::prog_args::Handler', 'readArgumentFile')
+    cfg = f.cfg
+    # the recursion exists: an argument of the handler calls readArgumentFile()
+    # (the callable created there is a generic lambda, whose body the extractor does not resolve: the existence of
+    #  the 'argument file' argument is taken from the API function that creates it)
+    back = [g for g in prog.functions if g.classq == 'celma::prog_args::Handler' and g.short == 'addArgumentFile'
+            and g.body is not None and any(x.get('k') == 'LambdaExpr' for x in g.walk())]
+    evals = [c for c in f.calls() if callee_is(c, 'Handler::iterateArguments')]
+    chk.require(evals, 'readArgumentFile: evaluation of the lines not found')
+    if not back:
+        chk.ok(rule, f.name, 'no argument of the handler reads an argument file (no recursion through file contents)')
+        return
+    written = set()
+    for x in f.walk():
+        if x.get('k') == 'UnaryOperator' and x.get('op') in ('++', '--') and field_name(children(x)[0]):
+            written.add(field_name(children(x)[0]))
+        elif x.get('k') in ('BinaryOperator', 'CompoundAssignOperator') and x.get('op') in ('=', '+=') and \
+                field_name(children(x)[0]):
+            written.add(field_name(children(x)[0]))
+        elif x.get('k') == 'CXXMemberCallExpr' and field_name(object_of(x)) and \
+                (x.get('callee') or '').split('::')[-1] in ('insert', 'push_back', 'emplace', 'emplace_back'):
+            written.add(field_name(object_of(x)))
+    written.discard('mReadMode')
+    bounded = False
+    for bid, cond in cfg.cond_blocks():
+        if cond is None or not any(mentions_field_name(cond, w) for w in written):
+            continue
+        for br in (0, 1):
+            tgt = cfg.succ[bid][br]
+            if tgt is None:
+                continue
+            seen = cfg.reach((tgt, 0))
+            only_throw = not any(p_[0] == 'exit_from' and cfg.exit_kind(p_[1]) == 'return' for p_ in seen) and \
+                not any(cfg.position(c) in seen for c in evals)
+            other = cfg.succ[bid][1 - br]
+            if only_throw and all(cfg.guarded_by_edge(cfg.position(c), bid, 1 - br) for c in evals):
+                bounded = True
+    chk.check(bounded, rule, f.name, 'the nesting of argument files is bounded (a file that names itself ends in an '
+              'exception, not in a stack overflow)', f.loc(), 'an argument created by addArgumentFile() calls '
+              'readArgumentFile() while a file is being evaluated, and nothing in readArgumentFile() limits the depth')
+
+
+def mentions_field_name(node, name):
+    return any(x.get('k') == 'MemberExpr' and x.get('ref', {}).get('name') == name for x in walk(node))
+
+
 def run(chk):
     drv = os.path.join(VERIF, 'drivers', 'prog_args_dest.cpp')
     units = units_matching('library/prog_args/', 'library/appl/arg_string_2_array.cpp', 'library/common/') + [drv]
@@ -641,6 +693,8 @@ def run(chk):
     r12_erase_found_only(chk, prog)
     chk.rule('R13', 'smart-pointer members are held by value (shared objects stay alive under their writers)', 3)
     r13_owning_members(chk, prog)
+    chk.rule('R14', 'the nesting of argument files is bounded', 1)
+    r14_argument_file_nesting(chk, prog)
     chk.rule('R6', 'ArgListIterator: the cursor invariant (four cases) is established and preserved; every argv[ i] '
              'and word[ j] access is inside', 40)
     from . import c04_cursor
